@@ -31,18 +31,43 @@ namespace
   bool coordinate_hook(const std::string &name, unsigned &r)
   { if (!(name == "coordinate") || n_overrides == 0) return false; current_override = visits++ % n_overrides; r = override_coordinate[current_override]; return true; }
 }
-template <class Seg, class A, class B, class C, class D> static std::vector<Seg> segments_from(const SegVals *vals, const unsigned n)
+// temperature models for the section obligations (with_models): the feature lists one model, every default segment lists its own, the segments of the
+// section overrides inherit the list handed to get_vector (the feature's).  Each stub counts how often its parse_entries() ran.
+namespace
 {
+  bool with_models = false; unsigned model_calls = 0;
+  typedef WorldBuilder::Utilities::PointDistanceFromCurvedPlanes PDc;
+  template <class I> struct CountT final : I
+  {
+    unsigned parsed = 0;
+    void parse_entries(Parameters &) override { ++parsed; }
+    double get_temperature(const Point<3> &, const double, const double, double t, const double, const double, const PDc &, const Features::AdditionalParameters &) const override { return t; }
+  };
+}
+template <class Seg, class A, class B, class C, class D> static std::vector<Seg> segments_from(const SegVals *vals, const unsigned n, const std::vector<std::shared_ptr<A>> *inherited = nullptr, const bool own = false)
+{
+  if (with_models)
+    {
+      std::vector<Seg> v;
+      for (unsigned i = 0; i < n; ++i)
+        {
+          std::vector<std::shared_ptr<A>> t;
+          if (own) t.emplace_back(new CountT<A>()); else if (inherited) t = *inherited;
+          v.emplace_back(vals[i].len, Point<2>(vals[i].t0, vals[i].t1, cartesian), Point<2>(vals[i].tr0, vals[i].tr1, cartesian), Point<2>(vals[i].d0, vals[i].d1, cartesian),
+                         t, std::vector<std::shared_ptr<B>>(), std::vector<std::shared_ptr<C>>(), std::vector<std::shared_ptr<D>>());
+        }
+      return v;
+    }
   std::vector<Seg> v;
   for (unsigned i = 0; i < n; ++i)
     v.emplace_back(vals[i].len, Point<2>(vals[i].t0, vals[i].t1, cartesian), Point<2>(vals[i].tr0, vals[i].tr1, cartesian), Point<2>(vals[i].d0, vals[i].d1, cartesian),
                    std::vector<std::shared_ptr<A>>(), std::vector<std::shared_ptr<B>>(), std::vector<std::shared_ptr<C>>(), std::vector<std::shared_ptr<D>>());
   return v;
 }
-template <class Seg, class A, class B, class C, class D> static std::vector<Seg> make_segments()
+template <class Seg, class A, class B, class C, class D> static std::vector<Seg> make_segments(const std::vector<std::shared_ptr<A>> *inherited = nullptr)
 {
   if (n_overrides > 0)
-    return segment_calls++ == 0 ? segments_from<Seg, A, B, C, D>(default_vals, n_segments) : segments_from<Seg, A, B, C, D>(override_vals[current_override], n_override_segments);
+    return segment_calls++ == 0 ? segments_from<Seg, A, B, C, D>(default_vals, n_segments, inherited, true) : segments_from<Seg, A, B, C, D>(override_vals[current_override], n_override_segments, inherited, false);
   std::vector<Seg> v;
   for (unsigned i = 0; i < n_segments; ++i)
     {
@@ -63,19 +88,24 @@ extern "C" {
   }
   size_t __wrap__ZN12WorldBuilder8Features16FeatureUtilities17add_vector_uniqueERSt6vectorINSt7__cxx1112basic_stringIcSt11char_traitsIcESaIcEEESaIS8_EERKS8_(std::vector<std::string> *, const std::string *) { return 3; }
 #define NO_MODELS(NS, KIND) bool __wrap__ZN12WorldBuilder10Parameters19get_shared_pointersINS_8Features##NS##KIND##9InterfaceEEEbRKNSt7__cxx1112basic_stringIcSt11char_traitsIcESaIcEEERSt6vectorISt10shared_ptrIT_ESaISH_EE(Parameters *, const std::string *, void *) { return false; }
-  NO_MODELS(21SubductingPlateModels, 11Temperature) NO_MODELS(21SubductingPlateModels, 11Composition) NO_MODELS(21SubductingPlateModels, 6Grains) NO_MODELS(21SubductingPlateModels, 8Velocity)
-  NO_MODELS(11FaultModels, 11Temperature) NO_MODELS(11FaultModels, 11Composition) NO_MODELS(11FaultModels, 6Grains) NO_MODELS(11FaultModels, 8Velocity)
+  NO_MODELS(21SubductingPlateModels, 11Composition) NO_MODELS(21SubductingPlateModels, 6Grains) NO_MODELS(21SubductingPlateModels, 8Velocity)
+  NO_MODELS(11FaultModels, 11Composition) NO_MODELS(11FaultModels, 6Grains) NO_MODELS(11FaultModels, 8Velocity)
+  // temperature models: with_models => the first request (feature level) delivers one model, later requests (section level) none
+  bool __wrap__ZN12WorldBuilder10Parameters19get_shared_pointersINS_8Features21SubductingPlateModels11Temperature9InterfaceEEEbRKNSt7__cxx1112basic_stringIcSt11char_traitsIcESaIcEEERSt6vectorISt10shared_ptrIT_ESaISH_EE(Parameters *, const std::string *, std::vector<std::shared_ptr<SPM::Temperature::Interface>> *v)
+  { v->resize(0); if (!with_models || model_calls++ > 0) return false; v->emplace_back(new CountT<SPM::Temperature::Interface>()); return true; }
+  bool __wrap__ZN12WorldBuilder10Parameters19get_shared_pointersINS_8Features11FaultModels11Temperature9InterfaceEEEbRKNSt7__cxx1112basic_stringIcSt11char_traitsIcESaIcEEERSt6vectorISt10shared_ptrIT_ESaISH_EE(Parameters *, const std::string *, std::vector<std::shared_ptr<FLM::Temperature::Interface>> *v)
+  { v->resize(0); if (!with_models || model_calls++ > 0) return false; v->emplace_back(new CountT<FLM::Temperature::Interface>()); return true; }
   bool __wrap__ZN12WorldBuilder10Parameters19get_unique_pointersINS_8Features15SubductingPlateEEEbRKNSt7__cxx1112basic_stringIcSt11char_traitsIcESaIcEEERSt6vectorISt10unique_ptrIT_St14default_deleteISE_EESaISH_EE(Parameters *, const std::string *, std::vector<std::unique_ptr<Features::SubductingPlate>> *v) { v->resize(n_overrides); return n_overrides > 0; }
   bool __wrap__ZN12WorldBuilder10Parameters19get_unique_pointersINS_8Features5FaultEEEbRKNSt7__cxx1112basic_stringIcSt11char_traitsIcESaIcEEERSt6vectorISt10unique_ptrIT_St14default_deleteISE_EESaISH_EE(Parameters *, const std::string *, std::vector<std::unique_ptr<Features::Fault>> *v) { v->resize(n_overrides); return n_overrides > 0; }
 }
 extern "C" Point<2> __wrap__ZN12WorldBuilder10Parameters3getINS_5PointILj2EEEEET_RKNSt7__cxx1112basic_stringIcSt11char_traitsIcESaIcEEE(Parameters *, const std::string *)
 { return Point<2>(sym_f64("dip point x"), sym_f64("dip point y"), cartesian); }
 extern "C" std::vector<SlabSeg> __wrap__ZN12WorldBuilder10Parameters10get_vectorINS_7Objects7SegmentINS_8Features21SubductingPlateModels11Temperature9InterfaceENS5_11Composition9InterfaceENS5_6Grains9InterfaceENS5_8Velocity9InterfaceEEES7_S9_SB_SD_EESt6vectorIT_SaISG_EERKNSt7__cxx1112basic_stringIcSt11char_traitsIcESaIcEEERSF_ISt10shared_ptrIT0_ESaIST_EERSF_ISR_IT1_ESaISY_EERSF_ISR_IT2_ESaIS13_EERSF_ISR_IT3_ESaIS18_EE
-(Parameters *, const std::string *, void *, void *, void *, void *)
-{ return make_segments<SlabSeg, SPM::Temperature::Interface, SPM::Composition::Interface, SPM::Grains::Interface, SPM::Velocity::Interface>(); }
+(Parameters *, const std::string *, std::vector<std::shared_ptr<SPM::Temperature::Interface>> *dT, void *, void *, void *)
+{ return make_segments<SlabSeg, SPM::Temperature::Interface, SPM::Composition::Interface, SPM::Grains::Interface, SPM::Velocity::Interface>(dT); }
 extern "C" std::vector<FaultSeg> __wrap__ZN12WorldBuilder10Parameters10get_vectorINS_7Objects7SegmentINS_8Features11FaultModels11Temperature9InterfaceENS5_11Composition9InterfaceENS5_6Grains9InterfaceENS5_8Velocity9InterfaceEEES7_S9_SB_SD_EESt6vectorIT_SaISG_EERKNSt7__cxx1112basic_stringIcSt11char_traitsIcESaIcEEERSF_ISt10shared_ptrIT0_ESaIST_EERSF_ISR_IT1_ESaISY_EERSF_ISR_IT2_ESaIS13_EERSF_ISR_IT3_ESaIS18_EE
-(Parameters *, const std::string *, void *, void *, void *, void *)
-{ return make_segments<FaultSeg, FLM::Temperature::Interface, FLM::Composition::Interface, FLM::Grains::Interface, FLM::Velocity::Interface>(); }
+(Parameters *, const std::string *, std::vector<std::shared_ptr<FLM::Temperature::Interface>> *dT, void *, void *, void *)
+{ return make_segments<FaultSeg, FLM::Temperature::Interface, FLM::Composition::Interface, FLM::Grains::Interface, FLM::Velocity::Interface>(dT); }
 
 template <class F> static void check_bounds(F *f, const std::vector<std::vector<Point<2>>> &thick, const std::vector<std::vector<double>> &lens, const std::vector<double> &total, const double max_thick, const double max_len)
 {
@@ -119,11 +149,11 @@ extern "C" void h_c07_bounds_fault(unsigned long nc, unsigned long ns)
 // A section for a coordinate that does not exist, or with a different number of segments, must be rejected by an exception (and nothing may be
 // written out of bounds - the executor checks every access); otherwise every coordinate carries its own section's values (the last section that
 // names it), the default list elsewhere, and the culling bounds of C07 still dominate.
-template <class F> static void sections(const unsigned nc, const unsigned ns, const unsigned k, const unsigned m, const char *kind,
+template <class F, class TI> static void sections(const unsigned nc, const unsigned ns, const unsigned k, const unsigned m, const bool models, const char *kind,
                                         std::vector<std::vector<Point<2>>> F::*thick, std::vector<std::vector<double>> F::*lens, std::vector<double> F::*total, double F::*max_thick, double F::*max_len,
                                         std::vector<std::vector<Point<2>>> F::*trunc, std::vector<std::vector<Point<2>>> F::*angles)
 {
-  n_coordinates = nc; n_segments = ns; n_overrides = k; n_override_segments = m; visits = 0; segment_calls = 0;
+  n_coordinates = nc; n_segments = ns; n_overrides = k; n_override_segments = m; visits = 0; segment_calls = 0; with_models = models; model_calls = 0;
   prm.u32_hook = coordinate_hook;
   for (unsigned g = 0; g < ns; ++g) default_vals[g] = draw();
   for (unsigned s = 0; s < k; ++s) { override_coordinate[s] = sym_u32("section coordinate"); for (unsigned g = 0; g < m; ++g) override_vals[s][g] = draw(); }
@@ -145,12 +175,21 @@ template <class F> static void sections(const unsigned nc, const unsigned ns, co
                    && sym_eq((f->*angles)[j][g][0], vals[g].d0 * (Consts::PI/180)) && sym_eq((f->*angles)[j][g][1], vals[g].d1 * (Consts::PI/180)),
                    "every coordinate carries the segments of its own section, the default segment list when no section names it");
     }
+  if (models)
+    {
+      // every model object that some segment of some coordinate uses has had its parse_entries() run (a model that was never parsed is silently inactive)
+      bool all_parsed = true; unsigned seen_models = 0;
+      for (const auto &table : f->segment_vector) for (const auto &seg : table) for (const auto &mp : seg.temperature_systems)
+        { ++seen_models; all_parsed = all_parsed && static_cast<const CountT<TI> *>(mp.get())->parsed >= 1; }
+      sym_assert(seen_models == nc * ns && all_parsed, "every model a segment uses - its own or an inherited one - has been parsed");
+      sym_reach("models parsed");
+    }
   check_bounds(f, f->*thick, f->*lens, f->*total, f->*max_thick, f->*max_len);
 }
-extern "C" void h_c12_sections(unsigned long fault, unsigned long nc, unsigned long ns, unsigned long k, unsigned long m)
+extern "C" void h_c12_sections(unsigned long fault, unsigned long nc, unsigned long ns, unsigned long k, unsigned long m, unsigned long models)
 {
-  if (fault) sections<Features::Fault>(unsigned(nc), unsigned(ns), unsigned(k), unsigned(m), "fault", &Features::Fault::fault_segment_thickness, &Features::Fault::fault_segment_lengths, &Features::Fault::total_fault_length,
+  if (fault) sections<Features::Fault, FLM::Temperature::Interface>(unsigned(nc), unsigned(ns), unsigned(k), unsigned(m), models != 0, "fault", &Features::Fault::fault_segment_thickness, &Features::Fault::fault_segment_lengths, &Features::Fault::total_fault_length,
                                        &Features::Fault::maximum_fault_thickness, &Features::Fault::maximum_total_fault_length, &Features::Fault::fault_segment_top_truncation, &Features::Fault::fault_segment_angles);
-  else sections<Features::SubductingPlate>(unsigned(nc), unsigned(ns), unsigned(k), unsigned(m), "slab", &Features::SubductingPlate::slab_segment_thickness, &Features::SubductingPlate::slab_segment_lengths, &Features::SubductingPlate::total_slab_length,
+  else sections<Features::SubductingPlate, SPM::Temperature::Interface>(unsigned(nc), unsigned(ns), unsigned(k), unsigned(m), models != 0, "slab", &Features::SubductingPlate::slab_segment_thickness, &Features::SubductingPlate::slab_segment_lengths, &Features::SubductingPlate::total_slab_length,
                                             &Features::SubductingPlate::maximum_slab_thickness, &Features::SubductingPlate::maximum_total_slab_length, &Features::SubductingPlate::slab_segment_top_truncation, &Features::SubductingPlate::slab_segment_angles);
 }
